@@ -92,7 +92,7 @@ func newReport(res *simrt.Result) *Report {
 		r.Infra = fmt.Sprintf("tasks could not be shut down: %v", res.Stuck)
 		r.Inconclusive = "infra"
 	} else if res.Livelock {
-		r.Violations = append(r.Violations, simrt.Violation{Rule: "livelock", Detail: fmt.Sprintf("more than 300000 scheduler steps were taken without the simulated clock advancing (a retry or wake-up loop that never waits); live tasks: %v", res.Blocked), Step: res.Steps})
+		r.Violations = append(r.Violations, simrt.Violation{Rule: "livelock", Detail: fmt.Sprintf("the system spins without achieving anything: a retry or wake-up loop that neither blocks nor moves a byte (%s); live tasks: %v", res.LivelockAt, res.Blocked), Step: res.Steps})
 	} else if res.StepCap {
 		r.Inconclusive = "step-cap"
 	} else if res.SimCap {
